@@ -120,6 +120,29 @@ def corrupt_scenarios(rnd, quick):
                 if 0x400 + mo + 64 < slot:
                     s.add("raw %x %s" % (p * slot + 0x400 + mo, bytes(rnd.choice([0xFF, 0xFE, 0x00, 0x7F]) for _ in range(64)).hex()))
         s.meta = {"setup": len(s.ops), "style": style}
+        if rnd.random() < 0.12:
+            # a resumable pair whose parity header announces a matrix that ends just below / inside / beyond the last 1 KiB of the
+            # slot (the raw area of a slot is its size minus the header page): recovery probes every row's diagonal byte, a coded
+            # fragment then stores a row near the end
+            s = session.Scn(ns, slot, blk)
+            sz = rnd.choice([1, 1, 2, 3])
+            def end(L): return L * sz + session.mro(L - 1) + (L - 1) // 8 + 1
+            target = rnd.choice([slot - 1024 - 2, slot - 1024, slot - 1024 + 1, slot - 1024 + rnd.randint(2, 1000), slot - 1, slot, slot + 1, slot + 40])
+            L = next((x for x in range(1, 2049) if end(x) >= target), 2048)
+            L = max(1, min(2048, L + rnd.choice([-1, 0, 0, 1])))
+            f, p2 = rnd.sample(range(ns), 2)
+            n = max(1, min(L, (slot - session.DRO) // sz))
+            hi = 0xFFFFF000
+            for i in range(ns):
+                if i not in (f, p2) and rnd.random() < 0.7:
+                    s.add("raw %x %s" % (i * slot, b"".join(x.to_bytes(4, "little") for x in [0, rnd.randint(1, 1000), 8, 2, 0x44444444, 0x11111111, 0xABCD1234]).hex()))   # confirmed neighbours
+            s.add("raw %x %s" % (f * slot, b"".join(x.to_bytes(4, "little") for x in [0, hi, sz, n] + [0xFFFFFFFF] * 3).hex()))
+            s.add("raw %x %s" % (p2 * slot, b"".join(x.to_bytes(4, "little") for x in [1, hi + 1, sz, L] + [0xFFFFFFFF] * 3).hex()))
+            s.meta = {"setup": len(s.ops), "style": "pair-edge"}
+            for c in ["hdrs", "recover", "seg %d %s" % (n + 1, "a5" * sz), "seg %d %s" % (n + 2, "5a" * sz), "seg %d %s" % (n + 5, "c3" * sz), "hdrs", "fb", "bl"]:
+                s.add(c)
+            scns.append(s)
+            continue
         calls = ["bl", "fb", "validfb", "hdrs"] + ["valid %d" % i for i in range(ns)] + ["recover", "recover", "hdrs", "cancel", "start 8 3", "hdrs", "bl", "fb"]
         rnd.shuffle(calls)
         if rnd.random() < 0.5:
